@@ -20,7 +20,7 @@ def pick(rnd, i):
 CHECK = ComponentCheck("C17", pick, tiers={"quick": (48, 400), "thorough": (1200, 1200)}, embedded=(("Forwarder", "Pipe"), ("zipper", "collector", "pipeline")),
                        suite=(("Forwarder", "Pipe"), ("test/lib/test_connectors.py", "test/lib/test_transformers.py", "test/lib/test_pipeline.py", "test/lib/test_reqres.py")))
 shards, run_shard = CHECK.shards, CHECK.run_shard
-RULE = ("[plus a second workload: Forwarder / Pipe instances embedded in ArgumentsToResultsZipper, Collector and PipelineBuilder pipelines, watched passively (vf/passive.py) against the same reference model: readiness, results and state registers every cycle, conditions embedded:*] histories = hostile random read/peek/write/clear sequences on Forwarder and Pipe; readiness equations are evaluated with the *observed* "
+RULE = ("[in 30% of the histories every provided exclusive method has a second, competing caller transaction: a request is issued by the main caller, the rival or both; condition exclusive_method_serves_at_most_one_caller_per_cycle] [plus a second workload: Forwarder / Pipe instances embedded in ArgumentsToResultsZipper, Collector and PipelineBuilder pipelines, watched passively (vf/passive.py) against the same reference model: readiness, results and state registers every cycle, conditions embedded:*] histories = hostile random read/peek/write/clear sequences on Forwarder and Pipe; readiness equations are evaluated with the *observed* "
         "same-cycle run of the other method; non-trivial distinct case = (component, set of >=2 simultaneously executed methods, buffer full/empty); "
         "the control space (16 enable combinations x 2 buffer states x 2 components) is finite and its coverage is reported in distinct_states")
 ASSUMPTIONS = ["pysim execution"]
